@@ -210,6 +210,43 @@ def run(ctx):
                                       f"read-only operation {op} performed {e['name']} on {real}", det)
                 if op in READ_ONLY:
                     ctx.count("read_only_ops_with_zero_mutations" if muts == 0 else "read_only_ops_with_mutations")
+            # (2b) read-only calls on DAMAGED content: still no mutation (no "self-healing" unlink, no quarantine rename)
+            if ki < 6 or not ctx.quick:
+                dkey = "damaged-entry"
+                ddata = b"content that will be damaged " * 3
+                w = ctx.call("sync@astd", {"op": "write", "cache": cache, "key": dkey, "data": ctx.data(ddata)})
+                if ev.is_ok(w):
+                    dsri = w["ok"]["sri"]
+                    cp = ref.content_path_sri(cache, dsri)
+                    for how in ("flip", "truncate"):
+                        with open(cp, "wb") as f:
+                            f.write(ddata[:10] + b"X" + ddata[11:] if how == "flip" else ddata[:20])
+                        m = drv.MODES[mode][1]
+                        dscript = [{"op": "read", "mode": m, "cache": cache, "key": dkey},
+                                   {"op": "read_hash", "mode": m, "cache": cache, "sri": dsri},
+                                   {"op": "reader", "mode": m, "cache": cache, "key": dkey, "bufs": [16]},
+                                   {"op": "metadata", "mode": m, "cache": cache, "key": dkey},
+                                   {"op": "exists", "mode": m, "cache": cache, "sri": dsri},
+                                   {"op": "list", "mode": "sync", "cache": cache}]
+                        sp2 = os.path.join(base, "script2.jsonl")
+                        with open(sp2, "w") as f:
+                            for q in dscript:
+                                f.write(json.dumps(q) + "\n")
+                        res2 = sysm.run([[build.ensure(variant), "run", sp2]], [base], base, timeout=60)
+                        for q, evs in zip(dscript, split_ops(res2.events)):
+                            ctx.case(distinct_key=(ki, mode, "damaged-" + how, q["op"]))
+                            ctx.count("read_only_ops_on_damaged_content")
+                            for e in evs:
+                                if sysm.is_mutating(e) and e.get("ret") is not None and e["ret"] >= 0:
+                                    tg = [t for t in sysm.mutation_targets(e) if t and not nonfile(t)]
+                                    if tg:
+                                        ctx.violation(f"{q['op']}|{mode}|read-only-op-mutates|{e['name']}|damaged-content",
+                                                      f"read-only operation {q['op']} on damaged ({how}) content performed "
+                                                      f"{e['name']} on {tg}", dict(det_base, steps=[[mode, q]], damage=how))
+                        if not os.path.exists(cp):
+                            ctx.violation(f"read|{mode}|damaged-content-file-removed",
+                                          "after read-only calls on damaged content the content file is gone", det_base)
+                            break
             # (4) decoy untouched (the link target is opened read-only; atime is not part of the snapshot)
             if before != after:
                 ch = [k for k in set(before) | set(after) if before.get(k) != after.get(k)]
